@@ -2,11 +2,13 @@
    input : `<kernel-name> <u64> <u64> ...` one call per line (decimal, already sign/zero-extended to 64 bit)
    output: `<u64>` or `ERR` -/
 import Pybes3Verif.Gen.DigiId
+import Pybes3Verif.Gen.Mdc
+import Pybes3Verif.Gen.Emc
 
 open Pybes3Verif.Gen
 
 def dispatchAll (name : String) (a : List (BitVec 64)) : Option (BitVec 64) :=
-  (DigiId.dispatch name a)
+  (DigiId.dispatch name a) <|> (Mdc.dispatch name a) <|> (Emc.dispatch name a)
 
 def step (line : String) : String :=
   match (line.splitOn " ").filter (· ≠ "") with
